@@ -319,10 +319,19 @@ class Engine:
         """run_once() executes the harness along one path.  Returns list of path records"""
         self.worklist = [[]]
         records = []
+        import os as _os
+        import time as _time
+        t_begin = _time.time()
+        wall_budget = float(_os.environ.get("VC_CASE_SECONDS", "900"))
         while self.worklist:
             if len(records) >= max_paths:
                 records.append({"status": "unsupported", "detail": "path budget exhausted (%d)" % max_paths,
                                 "checks": []})
+                break
+            if _time.time() - t_begin > wall_budget:
+                # a case that does not finish within its wall-clock budget is undecided (bounded stand-in)
+                records.append({"status": "unsupported", "checks": [],
+                                "detail": "time budget of the case exhausted (%d s, %d paths explored)" % (wall_budget, len(records))})
                 break
             self.sched = self.worklist.pop()
             self.trace = []
